@@ -141,10 +141,17 @@ func apply(rt *rapid.T, kind string, version int64, h []hop) buildResult {
 func genContent(rt *rapid.T, maxPairs int) (map[string][]byte, []string) {
 	n := gen.Uniform(rt, 0, maxPairs, "npairs")
 	maxBytes := rapid.SampledFrom([]int{2, 3, 4}).Draw(rt, "maxBytes")
+	longPaths := gen.Chance(rt, 15, "longpaths")
+	genP := func(used []string, label string) string {
+		if longPaths {
+			return mptkit.GenLongPath(rt, used, label)
+		}
+		return mptkit.GenPath(rt, used, maxBytes, label)
+	}
 	target := map[string][]byte{}
 	var used []string
 	for i := 0; i < 3*n && len(target) < n; i++ {
-		p := mptkit.GenPath(rt, used, maxBytes, "tp")
+		p := genP(used, "tp")
 		if _, dup := target[p]; dup {
 			continue
 		}
@@ -154,7 +161,7 @@ func genContent(rt *rapid.T, maxPairs int) (map[string][]byte, []string) {
 	nd := gen.Uniform(rt, 0, 4, "ndecoys")
 	var decoys []string
 	for i := 0; i < nd; i++ {
-		p := mptkit.GenPath(rt, used, maxBytes, "dp")
+		p := genP(used, "dp")
 		if _, ok := target[p]; !ok {
 			dup := false
 			for _, d := range decoys {
